@@ -66,6 +66,13 @@ def integral_summary(F, cls, f):
     base = lambda a: str(a.base).split("#")[0]
     t_at = sorted({base(a) for a in sp.sympify(sample[0]).atoms(sp.Indexed)}) if sample else []
     g_at = sorted({base(a) for a in sp.sympify(sample[1]).atoms(sp.Indexed)} - set(t_at)) if sample else []
+    # when the sample times do not have the expected shape (that is for the rules to report), fall back on the workspace
+    # members of those names, if they exist; only when there is neither is the routine not understood
+    wsrec_fields = {x["name"] for x in F.record(cls + "::Workspace")["fields"]} if (cls + "::Workspace") in F.records else set()
+    if len(t_at) != 1:
+        t_at = [ws + ".cache_times"] if "cache_times" in wsrec_fields else t_at
+    if len(g_at) != 1:
+        g_at = [ws + ".segment_start_times"] if "segment_start_times" in wsrec_fields else g_at
     if len(t_at) != 1 or len(g_at) != 1:
         raise Broken("calculateIntegralCost: duration array / segment start-time array not identified from the sample times (%s ; %s)" % (t_at, g_at))
     slot = [e for e in Lseg.effects if len(e.key) == 1 and sym.is_zero(e.key[0] - i) and e.target not in (gdC, gdT) and not e.target.startswith("$")]
